@@ -49,15 +49,17 @@ def death_tags(frames, partial, held=None):
 
 def predicates(H, v):
     preds = set()
-    graceful = H.exit_called or any(o["op"][0] == "shutdown" and not o["op"][2] for o in H.ops) \
-        or any(r.get("deleted") for r in H.executors) \
-        or any(o["op"][0] == "get" for o in H.ops) or H.case["config"]["executor"] == "reusable"
+    # F-i's stuck state: a manager thread sits in join_executor_internals (the graceful path: it joins the workers instead of
+    # killing them) while a worker is still alive and a queue lock is held by a dead one
+    graceful = any(t["state"] == "blocked" and t["pid"] == 1000 and any(":join_executor_internals:" in fr for fr in (t["where"] or []))
+                   for t in H.tasks)
+    survivors = any(p["alive"] for p in H.procs)
     for p in H.procs:
         d = p["death"]
         if not d:
             continue
         tags = death_tags(d.get("where"), d.get("partial_msg"), d.get("sems_held"))
-        if ("holds_rlock" in tags or "holds_wlock" in tags) and graceful:
+        if ("holds_rlock" in tags or "holds_wlock" in tags) and graceful and survivors:
             preds.add("death:holds_queue_lock_and_graceful_shutdown")
         for t in tags:
             preds.add("death:" + t + (":injected" if d["injected"] else ":" + str(d.get("by"))))
